@@ -357,7 +357,7 @@ theorem thread_values (c : Cfg) (hg : c.Good) (r : StatRec) (hwf : r.WF) :
 theorem threadOne_render (c : Cfg) (hg : c.Good) (tck : Nat) (r : StatRec) (hwf : r.WF) :
     threadOne c tck r.pid (renderStat r)
       = .ok ⟨r.pid, (r.utime : Rat) / tck, (r.stime : Rat) / tck⟩ := by
-  unfold threadOne
+  unfold threadOne threadValues
   simp only [stripWs_renderStat r hwf, hg.threadsUsesRfind, if_true, thread_values c hg r hwf,
     hg.tUtime, hg.tStime]
   simp [statTokens, getField, bind, Except.bind, pure, Except.pure, pyFloat_renderDec]
